@@ -213,9 +213,14 @@ class Sql:
         T = Table(st)
         kind = ps['kind']
         if kind not in ('begin', 'commit', 'rollback') and self.faults:
-            if st.decide(2) == 1:
-                st.effect('FAULT', op='sql', stmt=ps['text'])
+            d = st.decide(3 if self.faults == 'base' else 2)
+            if d == 1:
+                st.effect('FAULT', op='sql', stmt=ps['text'], exc='sqlite3.OperationalError')
                 raise_py('sqlite3.OperationalError', 'injected')
+            if d == 2:
+                # an asynchronous BaseException (KeyboardInterrupt) surfacing at this statement
+                st.effect('FAULT', op='sql', stmt=ps['text'], exc='KeyboardInterrupt')
+                raise_py('KeyboardInterrupt')
         m = getattr(self, 'x_' + kind)
         rows = m(it, T, ps, params)
         st.effect('SQL', stmt=ps, params=params, in_txn=st.world.get('txn.active', False))
@@ -243,7 +248,7 @@ class Sql:
             raise_py('sqlite3.OperationalError', 'cannot commit - no transaction is active')
         w['txn.active'] = False
         w['txn.snapshot'] = None
-        it.st.effect('COMMIT')
+        it.st.effect('COMMIT', world={k: v for k, v in w.items() if k.startswith(('T.', 'S.', 'F.'))})
         return []
 
     def x_rollback(self, it, T, ps, params):
@@ -253,7 +258,7 @@ class Sql:
         T.restore(w['txn.snapshot'])
         w['txn.active'] = False
         w['txn.snapshot'] = None
-        it.st.effect('ROLLBACK')
+        it.st.effect('ROLLBACK', world={k: v for k, v in w.items() if k.startswith(('T.', 'S.', 'F.'))})
         return []
 
     def x_vacuum(self, it, T, ps, params):
@@ -626,7 +631,7 @@ class Sql:
         new_size = z3.Select(w['T.size'], r)
         self.sum_fact(it, size0, live0, w['T.size'], w['T.live'], new_size)
         self.fire(T, 'INSERT', new_size=new_size)
-        st.effect('INSERT', rowid=r, key=kt, raw=rb)
+        st.effect('INSERT', rowid=r, key=kt, raw=rb, vals={c: v[1] for c, v in vals.items()})
         return []
 
     def store_cell(self, it, T, c, r, dv):
@@ -662,6 +667,7 @@ class Sql:
             st.effect('UPDATE_NOOP', rowid=r)
             return []
         old_size = z3.Select(w['T.size'], r)
+        old_fn = (z3.Select(w['T.filename?'], r), z3.Select(w['T.filename'], r))
         size0 = w['T.size']
         # evaluate all right-hand sides against the old row first
         news = [(c, self.term(it, T, e, params, r)) for c, e in ps['sets']]
@@ -672,7 +678,7 @@ class Sql:
         new_size = z3.Select(w['T.size'], r)
         self.sum_fact(it, size0, w['T.live'], w['T.size'], w['T.live'], new_size - old_size)
         self.fire(T, 'UPDATE', new_size=new_size, old_size=old_size)
-        st.effect('UPDATE', rowid=r, cols=[c for c, _ in news])
+        st.effect('UPDATE', rowid=r, cols=[c for c, _ in news], old_filename=old_fn, new=dict(news))
         return []
 
     def update_settings(self, it, T, ps, params):
@@ -728,8 +734,9 @@ class Sql:
         if not st.branch(z3.And(DbVal.is_IntV(rv), z3.Select(T.w['T.live'], r))):
             st.effect('DELETE_NOOP', rowid=r)
             return []
+        old_fn = (z3.Select(T.w['T.filename?'], r), z3.Select(T.w['T.filename'], r))
         self.delete_row(it, T, r)
-        st.effect('DELETE', rowid=r)
+        st.effect('DELETE', rowid=r, old_filename=old_fn)
         return []
 
     def delete_set(self, it, T, member, count, why):
